@@ -136,7 +136,8 @@ class ExactAlgorithmCplex(ExactAlgorithmBase, PairwiseBasedAlgorithm):
                 # (and infinite loop obviously)
                 else:
                     # update the ranking to return
-                    new_dataset: Dataset = dataset.sub_problem_from_ids(scc_i_set)
+                    # rankings with no element of the scc are kept (empty): they induce costs as well
+                    new_dataset: Dataset = dataset.sub_problem_from_ids(scc_i_set, keep_empty_rankings=True)
                     rankings: List[Ranking] = self._compute_consensus_rankings_with_optim(new_dataset, scoring_scheme,
                                                                                           False, True)
                     for bucket in rankings[0]:
